@@ -64,6 +64,10 @@ def _unparse(node):
     return ast.unparse(node)
 
 
+def _first_line(node):
+    return (_unparse(node).splitlines() or [""])[0]
+
+
 def _parse_forward_ref(s, line, extra_names):
     try:
         e = ast.parse(s, mode="eval").body
@@ -225,7 +229,7 @@ def _class_info(node, extra_names):
                     and isinstance(st.value, ast.Constant) and isinstance(st.value.value, str)):
                 variants.append({"ident": st.targets[0].id, "wire": st.value.value, "payload": "unit", "line": _line(st)})
                 continue
-            raise ExtractError(f"unexpected statement in enum `{node.name}` at line {_line(st)}: `{_unparse(st)}`")
+            raise ExtractError(f"unexpected statement in enum `{node.name}` at line {_line(st)}: `{_first_line(st)}`")
         return {"cls": "enum", "name": node.name, "generics": generics, "variants": variants, "line": _line(node),
                 "bases": bases}
     if "BaseModel" in bases:
@@ -240,7 +244,7 @@ def _class_info(node, extra_names):
                     and st.targets[0].id == "model_config"):
                 model_config = _unparse(st.value)
                 continue
-            raise ExtractError(f"unexpected statement in class `{node.name}` at line {_line(st)}: `{_unparse(st)}`")
+            raise ExtractError(f"unexpected statement in class `{node.name}` at line {_line(st)}: `{_first_line(st)}`")
         return {"cls": "model", "name": node.name, "generics": generics, "members": members, "line": _line(node),
                 "model_config": model_config, "bases": bases, "tag_node": _tag_node(node)}
     raise ExtractError(f"class `{node.name}` at line {_line(node)} is neither a BaseModel nor an Enum (bases: {bases})")
@@ -415,7 +419,7 @@ def extract(text):
                 continue
             items.append(("assign", {"name": name, "generics": generics, "value": st.value, "line": line}))
         else:
-            raise ExtractError(f"unsupported top-level statement at line {line}: `{_unparse(st).splitlines()[0]}`")
+            raise ExtractError(f"unsupported top-level statement at line {line}: `{_first_line(st)}`")
 
     # fold the algebraic-enum groups
     consumed_models, consumed_enums = set(), set()
